@@ -99,15 +99,20 @@ static bsx::Outcome run_history(const Cfg &c, const std::vector<Op> &ops) {
     return o;
   };
   try {
-    HistogramNew h;
-    h.setPeriodic(c.per);
-    h.Initialize(c.min, c.max, (Index)c.n);
+    // the object the history currently works on; 'D' continues on a copy-constructed object while the source stays alive
+    // (and must not change any more), 'A' continues on a copy-ASSIGNED object and destroys the source
+    std::unique_ptr<HistogramNew> hp(new HistogramNew);
+    std::unique_ptr<HistogramNew> src;   // source of the last 'D'
+    std::vector<double> srcbins;
+    int copied = 0;  // 0 original, 1 after D, 2 after A
+    hp->setPeriodic(c.per);
+    hp->Initialize(c.min, c.max, (Index)c.n);
     Ref r(c.per, c.min, c.max, c.n);
-    if (h.getStep() != r.step) return failwith("step", "step " + bsx::fmt(h.getStep()) + " != " + bsx::fmt(r.step));
+    if (hp->getStep() != r.step) return failwith("step", "step " + bsx::fmt(hp->getStep()) + " != " + bsx::fmt(r.step));
     for (long k = 0; k < c.n; k++) {
       double centre = c.min + double(k) * r.step;
-      if (std::fabs(h.data().x(k) - centre) > 1e-12 * std::max(1.0, std::fabs(centre)))
-        return failwith("centres", "bin " + std::to_string(k) + " centred at " + bsx::fmt(h.data().x(k)));
+      if (std::fabs(hp->data().x(k) - centre) > 1e-12 * std::max(1.0, std::fabs(centre)))
+        return failwith("centres", "bin " + std::to_string(k) + " centred at " + bsx::fmt(hp->data().x(k)));
     }
     double accepted = 0;
     bool nonneg = true, normalized = false, undefined = false;
@@ -116,12 +121,12 @@ static bsx::Outcome run_history(const Cfg &c, const std::vector<Op> &ops) {
       if (op.kind == 'P') {
         std::set<long> al = r.allowed(op.v);
         std::vector<double> before(c.n);
-        for (long k = 0; k < c.n; k++) before[k] = h.data().y(k);
-        h.Process(op.v, op.w);
-        if ((long)h.data().y().size() != c.n) return failwith("resized", "bin vector resized");
+        for (long k = 0; k < c.n; k++) before[k] = hp->data().y(k);
+        hp->Process(op.v, op.w);
+        if ((long)hp->data().y().size() != c.n) return failwith("resized", "bin vector resized");
         long hit = -1; int nchanged = 0;
         for (long k = 0; k < c.n; k++) {
-          double now = h.data().y(k);
+          double now = hp->data().y(k);
           if (now != before[k]) { nchanged++; hit = k; }
         }
         // a Process with w that leaves the value unchanged due to absorption cannot happen with our alphabets
@@ -138,8 +143,8 @@ static bsx::Outcome run_history(const Cfg &c, const std::vector<Op> &ops) {
             for (long a : al) exp += std::to_string(a) + " ";
             return failwith(mode + "-wrong-bin" + sfx, "Process(" + bsx::fmt(op.v) + ") went to bin " + std::to_string(hit) + ", allowed {" + exp + "}");
           }
-          if (h.data().y(hit) != before[hit] + op.w)
-            return failwith(mode + "-wrong-weight", "bin " + std::to_string(hit) + " changed by " + bsx::fmt(h.data().y(hit) - before[hit]) + " instead of " + bsx::fmt(op.w));
+          if (hp->data().y(hit) != before[hit] + op.w)
+            return failwith(mode + "-wrong-weight", "bin " + std::to_string(hit) + " changed by " + bsx::fmt(hp->data().y(hit) - before[hit]) + " instead of " + bsx::fmt(op.w));
           r.bins[hit] += op.w;
           accepted += op.w;
           if (op.w < 0) nonneg = false;
@@ -147,41 +152,58 @@ static bsx::Outcome run_history(const Cfg &c, const std::vector<Op> &ops) {
         (void)normalized;
       } else if (op.kind == 'C' || op.kind == 'I') {
         // Clear, or Initialize again with the same range on the SAME object: both must give an empty histogram
-        if (op.kind == 'C') h.Clear();
-        else h.Initialize(c.min, c.max, (Index)c.n);
+        if (op.kind == 'C') hp->Clear();
+        else hp->Initialize(c.min, c.max, (Index)c.n);
         if (op.kind == 'I') {
-          if ((long)h.data().y().size() != c.n || h.getStep() != r.step) return failwith("reinitialize-shape", "re-Initialize changed the shape/step");
+          if ((long)hp->data().y().size() != c.n || hp->getStep() != r.step) return failwith("reinitialize-shape", "re-Initialize changed the shape/step");
           for (long k = 0; k < c.n; k++)
-            if (h.data().y(k) != 0.0) return failwith("reinitialize-keeps-contents", "bin " + std::to_string(k) + " = " + bsx::fmt(h.data().y(k)) + " after Initialize on a used object");
+            if (hp->data().y(k) != 0.0) return failwith("reinitialize-keeps-contents", "bin " + std::to_string(k) + " = " + bsx::fmt(hp->data().y(k)) + " after Initialize on a used object");
         }
         for (auto &b : r.bins) b = 0;
         accepted = 0; nonneg = true; normalized = false;
+      } else if (op.kind == 'D') {
+        srcbins.assign(c.n, 0.0);
+        for (long k = 0; k < c.n; k++) srcbins[k] = hp->data().y(k);
+        std::unique_ptr<HistogramNew> np(new HistogramNew(*hp));
+        src = std::move(hp);
+        hp = std::move(np);
+        copied = 1;
+      } else if (op.kind == 'A') {
+        std::unique_ptr<HistogramNew> np(new HistogramNew);
+        *np = *hp;
+        src.reset();
+        hp = std::move(np);  // the source is destroyed here
+        copied = 2;
       } else if (op.kind == 'N') {
         double sum = 0; for (double b : r.bins) sum += b;
         std::vector<double> before = r.bins;
-        h.Normalize();
+        hp->Normalize();
         if (!(nonneg && sum > 0)) { undefined = true; break; }  // integral of signed/empty bins: not defined by the statement
         double s2 = 0;
-        for (long k = 0; k < c.n; k++) s2 += h.data().y(k);
+        for (long k = 0; k < c.n; k++) s2 += hp->data().y(k);
         if (std::fabs(s2 * r.step - 1.0) > 1e-12)
           return failwith("normalize-integral", "after Normalize sum*step = " + bsx::fmt(s2 * r.step));
         for (long k = 0; k < c.n; k++) {
           double expect = before[k] / (sum * r.step);
-          if (std::fabs(h.data().y(k) - expect) > 1e-12 * std::max(1.0, std::fabs(expect)))
-            return failwith("normalize-ratios", "bin " + std::to_string(k) + " = " + bsx::fmt(h.data().y(k)) + " expected " + bsx::fmt(expect));
-          r.bins[k] = h.data().y(k);
+          if (std::fabs(hp->data().y(k) - expect) > 1e-12 * std::max(1.0, std::fabs(expect)))
+            return failwith("normalize-ratios", "bin " + std::to_string(k) + " = " + bsx::fmt(hp->data().y(k)) + " expected " + bsx::fmt(expect));
+          r.bins[k] = hp->data().y(k);
         }
         normalized = true;
       }
+      if (src)
+        for (long k = 0; k < c.n; k++)
+          if (src->data().y(k) != srcbins[k])
+            return failwith("copy-changes-its-source", "after " + std::string(1, op.kind) + " on a copy-constructed histogram bin " + std::to_string(k) + " of the SOURCE changed from " + bsx::fmt(srcbins[k]) + " to " + bsx::fmt(src->data().y(k)));
       // invariant in every state: contents equal the reference, sum = accepted weight
       for (long k = 0; k < c.n; k++)
-        if (h.data().y(k) != r.bins[k])
-          return failwith("contents", "bin " + std::to_string(k) + " = " + bsx::fmt(h.data().y(k)) + " reference " + bsx::fmt(r.bins[k]));
+        if (hp->data().y(k) != r.bins[k])
+          return failwith("contents", "bin " + std::to_string(k) + " = " + bsx::fmt(hp->data().y(k)) + " reference " + bsx::fmt(r.bins[k]));
     }
     if (undefined) { o.extra = "UNDEF"; return o; }
     std::vector<double> st(c.n);
-    for (long k = 0; k < c.n; k++) st[k] = h.data().y(k);
-    o.extra = canon(st);
+    for (long k = 0; k < c.n; k++) st[k] = hp->data().y(k);
+    o.extra = canon(st) + (copied == 1 ? "|copy" : (copied == 2 ? "|assigned" : ""));
     o.cls = bsx::fnv(cfgstr(c) + o.extra);
   } catch (const std::exception &e) {
     std::string m = e.what();
@@ -325,7 +347,7 @@ int main(int argc, char **argv) {
   R.property = "C13"; R.part = "hist"; R.tier = a.tier;
   bool thorough = a.tier == "thorough";
   int depth = thorough ? 7 : 5;
-  R.rule = "explicit-state BFS over op histories (Process(v,w)/Normalize/Clear/re-Initialize) of the real HistogramNew per (min,max,nbins,periodic) "
+  R.rule = "explicit-state BFS over op histories (Process(v,w)/Normalize/Clear/re-Initialize/continue on a copy-constructed object with the source alive/continue on a copy-assigned object with the source destroyed) of the real HistogramNew per (min,max,nbins,periodic) "
            "config: depth-1 over the full value alphabet (bin centres, edges exact/+-1ulp/+-1e-6 step, min-k*range, max+k*range, "
            "+-1e19 step, +-1e300, +-DBL_MAX) x weights {1,0.5,-2}; depth<=" + std::to_string(depth) +
            " over a reduced alphabet; state = canonical bin vector; every transition compared with a reference model; "
@@ -369,7 +391,11 @@ int main(int argc, char **argv) {
     alphaD.push_back({'N', 0, 0});
     alphaD.push_back({'C', 0, 0});
     alphaD.push_back({'I', 0, 0});
+    alphaD.push_back({'D', 0, 0});
+    alphaD.push_back({'A', 0, 0});
     alpha1.push_back({'I', 0, 0});
+    alpha1.push_back({'D', 0, 0});
+    alpha1.push_back({'A', 0, 0});
     alpha1.push_back({'N', 0, 0});
     alpha1.push_back({'C', 0, 0});
 
